@@ -33,6 +33,8 @@ SHIPPED_EXCLUDED = {
     "examples/singleton0.hms": "older singleton syntax: does not parse",
     "examples/sig_term.hms": "runs (by design) until it is killed",
     "examples/dates.hms": "prints the current time",
+    "examples/binary.hms": "prints the current time",
+    "examples/iterators.hms": "reads the current time",
 }
 # these print positions of their own source text (exception line/column): behaviour is compared up to those
 POSITION_DEPENDENT = {"tests/try.hms"}
